@@ -26,7 +26,21 @@ pub fn opts() -> GenOpts {
     o.cmd_depth = 2;
     o.max_named = 5;
     o.decor = true;
+    // arguments may have an environment fallback; in a third of the cases those variables are set
+    // (a set variable does not make the name any less available on the command line)
+    o.env = true;
+    o.env_only = false;
     o
+}
+
+/// unsets the variables it was given when the case is over
+struct EnvGuard(Vec<String>);
+impl Drop for EnvGuard {
+    fn drop(&mut self) {
+        for v in &self.0 {
+            std::env::remove_var(v);
+        }
+    }
 }
 
 /// completer values attached to items: item id -> values
@@ -239,6 +253,37 @@ pub fn run_case(case: &mut Case) {
         spec
     };
     let b = Bench::new(case, spec);
+    let mut env_guard = EnvGuard(Vec::new());
+    if rng.chance(1, 3) {
+        // only plain fields of the top level (bare, optional or defaulted): under repetition, in
+        // choices and groups a value supplied by the environment changes which parser answers
+        fn plain_arg(s: &Spec) -> Option<&Item> {
+            match s {
+                Spec::Item(i) if i.is_arg() => Some(i),
+                Spec::Wrap { w, inner, .. }
+                    if w.transparent()
+                        || matches!(
+                            w,
+                            W::Optional { .. } | W::Fallback | W::FallbackWithOk | W::Complete(..)
+                        ) =>
+                {
+                    plain_arg(inner)
+                }
+                _ => None,
+            }
+        }
+        if let Spec::Seq(fields) = &b.spec.root {
+            for it in fields.iter().filter_map(plain_arg) {
+                for v in &it.names.envs {
+                    std::env::set_var(v, "7");
+                    env_guard.0.push(v.clone());
+                }
+            }
+        }
+        if !env_guard.0.is_empty() {
+            case.rep.count("cases-with-argument-variables-set");
+        }
+    }
     let mut all_levels_owned = Vec::new();
     levels(&b.spec, &mut Vec::new(), &mut all_levels_owned);
     let all_levels: Vec<&OptSpec> = all_levels_owned.iter().map(|l| l.1).collect();
